@@ -76,6 +76,11 @@ package storage
 //@   ensures [records] withState ==> forall i int :: {result[i]} 0 <= i && i < len(result) ==> Rec(*txn, result[i]) && result[i].Timestamp <= threshold
 //@   ensures [ordered] withState ==> forall i, j int :: {result[i], result[j]} 0 <= i && i < j && j < len(result) ==> badger.keylt(NK(result[i]), NK(result[j]))
 //@   ensures [complete] withState ==> forall k mathint :: {badger.kvget(*txn, k)} HasRec(*txn, k, threshold) ==> exists i int :: {result[i]} 0 <= i && i < len(result) && NK(result[i]) == k
+//@   -- withState == false: the second half (a map keyed by the hash of the signer address keeps the LAST record per signer; the map's values are
+//@   -- collected and sorted by timestamp) is NOT proved -- map iteration, sort.Slice and collision freedom of Address.Hash would all be needed.
+//@   -- ASSUMED (by inspection of the code): one decoded record per signer that has a record <= threshold, namely that signer's latest one.
+//@   assumes [latest-records] !withState ==> forall i int :: {result[i]} 0 <= i && i < len(result) ==> Rec(*txn, result[i]) && result[i].Timestamp <= threshold && SignerLatest(*txn, threshold, NK(result[i]))
+//@   assumes [latest-complete] !withState ==> forall k mathint :: {badger.kvget(*txn, k)} HasRec(*txn, k, threshold) ==> exists i int :: {result[i]} 0 <= i && i < len(result) && kvval(result[i].Signer.PublicSpendKey) == keyhid(k)
 //@   loop 0 invariant [fresh] fresh(nodes)
 //@   loop 0 invariant [cursor] badger.itkey(*it) != 0 ==> IsNodeKey(badger.itkey(*it)) && badger.itget(it, badger.itkey(*it)) != 0
 //@   loop 0 invariant [records] forall m int :: {nodes[m]} 0 <= m && m < len(nodes) ==> allocated(nodes[m]) && Rec(*txn, nodes[m]) && nodes[m].Timestamp <= threshold &&
@@ -159,3 +164,43 @@ package storage
 //@       forall k2 mathint :: {badger.kvget(*txn, k2)} HasRec(*txn, k2, timestamp + 43200000000000) && keyhid(k2) == kvval(signer) ==> !badger.keylt(NK(node), k2)
 //@   loop 0 invariant [found] node != nil ==> (exists j int :: {nodes[j]} 0 <= j && j <= rangeindex && nodes[j] == node) && node.Signer.PublicSpendKey == signer
 //@   loop 0 invariant [latest] forall j int :: {nodes[j]} 0 <= j && j <= rangeindex && nodes[j].Signer.PublicSpendKey == signer ==> node != nil && !badger.keylt(NK(node), NK(nodes[j]))
+
+//@ -- "only records a pledge for a new signer while no other node is pledging" / "signer keys never repeat across nodes": over the history up to
+//@ -- timestamp + 12h, every signer's latest record is in a final state ([nobody-pledging]), NO record at all carries this signer key
+//@ -- ([new-signer]) and no signer's latest record carries this transaction ([new-tx]); then one PLEDGING record is appended.
+//@ -- Uses the ASSUMED half of readAllNodes' contract (latest record per signer).
+//@ func writeNodePledge
+//@   property C27
+//@   requires txn != nil && NodeHistOK(*txn) && Window(timestamp)
+//@   modifies *txn
+//@   ensures [refused] err != nil ==> *txn == old(*txn)
+//@   ensures [nobody-pledging] err == nil ==> forall k mathint :: {badger.kvget(old(*txn), k)} SignerLatest(old(*txn), timestamp + 43200000000000, k) ==> FinalState(NodeStateOf(badger.kvget(old(*txn), k)))
+//@   ensures [new-signer] err == nil ==> forall k mathint :: {badger.kvget(old(*txn), k)} HasRec(old(*txn), k, timestamp + 43200000000000) ==> keyhid(k) != kvval(signer)
+//@   ensures [new-tx] err == nil ==> forall k mathint :: {badger.kvget(old(*txn), k)} SignerLatest(old(*txn), timestamp + 43200000000000, k) ==> NodeTxOf(badger.kvget(old(*txn), k)) != tx
+//@   ensures [appended] err == nil ==> Appended(old(*txn), *txn, NodeKeyId(timestamp, kvval(signer)), payee, tx, common.NodeStatePledging)
+//@   ensures [keeps-ok] NodeHistOK(*txn)
+//@   ensures [ghost-frame] forall k mathint :: {badger.kvget(*txn, k)} keykind(k) == 2 ==> badger.kvget(*txn, k) == old(badger.kvget(*txn, k))
+//@   loop 0 invariant [final] forall j int :: {nodes[j]} 0 <= j && j <= rangeindex ==> FinalState(nodes[j].State)
+//@   loop 1 invariant [final] forall j int :: {nodes[j]} 0 <= j && j < len(nodes) ==> FinalState(nodes[j].State)
+//@   loop 1 invariant [fresh-keys] forall j int :: {nodes[j]} 0 <= j && j <= rangeindex ==> nodes[j].Signer.PublicSpendKey != signer && nodes[j].Transaction != tx
+//@   -- proof guidance: a signer's latest record IS the element the list holds for that signer
+//@   hint at "key := nodeStateQueueKey(signer, timestamp)" [is-listed] forall k mathint :: {badger.kvget(*txn, k)} SignerLatest(*txn, timestamp + 43200000000000, k) ==> exists i int :: {nodes[i]} 0 <= i && i < len(nodes) && NK(nodes[i]) == k
+
+//@ -- ═════════ observation point: one read-only transaction over the committed state ═════════
+//@ spec DbNodeHistOK(d badger.DB) bool = forall k mathint :: {badger.dbget(d, k)} badger.dbget(d, k) != 0 && badger.keypfx(k, strkey(graphPrefixNodeStateQueue)) == 0 ==> IsNodeKey(k) && badger.vallen(badger.dbget(d, k)) >= 64
+//@ spec DbHasRec(d badger.DB, k mathint, thr mathint) bool = badger.dbget(d, k) != 0 && badger.keypfx(k, strkey(graphPrefixNodeStateQueue)) == 0 && keynum(k) <= thr
+//@ spec DbRec(d badger.DB, n *common.Node) bool = n != nil && U64(n.Timestamp) && badger.dbget(d, NK(n)) != 0 && n.Payee.PublicSpendKey == NodePayeeOf(badger.dbget(d, NK(n))) &&
+//@     n.Transaction == NodeTxOf(badger.dbget(d, NK(n))) && n.State == NodeStateOf(badger.dbget(d, NK(n)))
+//@ spec DbSignerLatest(d badger.DB, thr mathint, k mathint) bool = DbHasRec(d, k, thr) && forall k2 mathint :: {badger.dbget(d, k2)} DbHasRec(d, k2, thr) && keyhid(k2) == keyhid(k) ==> !badger.keylt(k, k2)
+//@ -- "each node's latest state is the one reported": ReadAllNodes(threshold, false) reports, for every signer with a record <= threshold, the
+//@ -- decoding of that signer's LATEST record ([latest-*]: derived from the ASSUMED half of readAllNodes); with state: the whole history (proved).
+//@ func (s *BadgerStore) ReadAllNodes
+//@   property C27
+//@   maypanic
+//@   requires s != nil && s.snapshotsDB != nil && DbNodeHistOK(*s.snapshotsDB)
+//@   modifies nothing
+//@   ensures [records] withState ==> forall i int :: {result[i]} 0 <= i && i < len(result) ==> DbRec(*s.snapshotsDB, result[i]) && result[i].Timestamp <= threshold
+//@   ensures [ordered] withState ==> forall i, j int :: {result[i], result[j]} 0 <= i && i < j && j < len(result) ==> badger.keylt(NK(result[i]), NK(result[j]))
+//@   ensures [complete] withState ==> forall k mathint :: {badger.dbget(*s.snapshotsDB, k)} DbHasRec(*s.snapshotsDB, k, threshold) ==> exists i int :: {result[i]} 0 <= i && i < len(result) && NK(result[i]) == k
+//@   ensures [latest-records] !withState ==> forall i int :: {result[i]} 0 <= i && i < len(result) ==> DbRec(*s.snapshotsDB, result[i]) && DbSignerLatest(*s.snapshotsDB, threshold, NK(result[i]))
+//@   ensures [latest-complete] !withState ==> forall k mathint :: {badger.dbget(*s.snapshotsDB, k)} DbHasRec(*s.snapshotsDB, k, threshold) ==> exists i int :: {result[i]} 0 <= i && i < len(result) && kvval(result[i].Signer.PublicSpendKey) == keyhid(k)
